@@ -325,6 +325,18 @@ def run(ck):
     k = c.consts.get(M + "NUM_ADDED_FUNCTIONS")
     ck.ob("CONST", M + "NUM_ADDED_FUNCTIONS", "value", k is not None and k.get("v") == "1", "NUM_ADDED_FUNCTIONS = %s" % (k.get("v") if k else None), "")
 
+    # the function-entry charge is computed from the number of declared locals = num_locals - number of parameters (the
+    # length of the `locals` list counts run-length GROUPS of locals, not locals)
+    f = getfn(ck, "sc", W, M + "inject_accounting")
+    if f:
+        sites = f.calls(r"CostConfiguration::invoke_after$|::invoke_after$")
+        ck.ob("DEFUSE", f.path, "sites:invoke_after", len(sites) == 1, "%d entry charges" % len(sites), f.loc(), nontrivial=False)
+        for (bi, t) in sites:
+            o = f.origins(t["args"][-1], deep=True)
+            ok = ("field", "num_locals") in o and ("field", "parameters") in o and has_call_origin(o, r"::checked_sub$") and ("field", "locals") not in o
+            ck.ob("DEFUSE", f.path, "entry-charge-counts-declared-locals", ok,
+                  "invoke_after(num_locals - number of parameters)" if ok else
+                  "the entry charge is not computed from num_locals - parameters (sources: %s): locals declared in groups are undercharged" % sorted(set(a[1] for a in o if a[0] == "field")), f.loc(bi))
     compiled_charge_rules(ck, c)
 
 
